@@ -547,14 +547,24 @@ def g_blockin_clamps(chk, P, D, sk):
             q = F.strip_casts(q)
             v = vals.get(q)
             return v is not None and v.lo >= 0
-        hs_ids = set()
+        # locals that hold the half-rate flag: every definition (initialiser or assignment) is a read of halfrate_flag
+        hs_defs = {}
         for e, nd in F.ex.items():
             if nd['k'] == 'decl':
                 for v in nd.get('vars', []):
                     if v.get('init') is not None and 'id' in v:
                         i = F.ex[F.strip_casts(v['init'])]
-                        if i['k'] == 'member' and i.get('field') == 'halfrate_flag':
-                            hs_ids.add(v['id'])
+                        hs_defs.setdefault(v['id'], []).append(i['k'] == 'member' and i.get('field') == 'halfrate_flag')
+            elif nd['k'] == 'assign':
+                l = F.ex[F.strip_casts(nd['c'][0])]
+                if l['k'] == 'ref' and l['decl'].get('kind') == 'var':
+                    i = F.ex[F.strip_casts(nd['c'][1])]
+                    hs_defs.setdefault(l['decl']['id'], []).append(nd['op'] == '=' and i['k'] == 'member' and i.get('field') == 'halfrate_flag')
+            elif nd['k'] == 'un' and nd['op'] in ('pre++', 'pre--', 'post++', 'post--', '&'):
+                l = F.ex[F.strip_casts(nd['c'][0])]
+                if l['k'] == 'ref' and l['decl'].get('kind') == 'var':
+                    hs_defs.setdefault(l['decl']['id'], []).append(False)
+        hs_ids = {v for v, ds in hs_defs.items() if ds and all(ds)}
 
         def is_hs(q, F=F, hs_ids=hs_ids):
             nd = F.ex[q]
